@@ -70,4 +70,10 @@ DRIVERS = {
         "level_text": "All strings up to the stated length, every single deviation of every plugin's argument table and every single shape deviation / truncation of a maximal JSON document are loaded through Main.cpp's own parseConfig+compile and through the drop-in adaptor; an outcome is a violation if the process would crash, an exception escapes the path's top level, an input the reference proves invalid is accepted, a valid one is rejected, an accepted value is not held exactly, or a rejected drop-in changes the engine.",
         "level_note": "Trusted: reference grammar in harness/common/refnum.h (exact __int128 arithmetic; DONT_CARE where docs are silent), plugin argument tables transcribed from docs/core_plugins.md and the plugin headers. Main.cpp is compiled into the driver with main() renamed.",
     },
+    "C07": {
+        "sources": COMMON + ["props/c07.cpp"], "level": "model_checking", "engine": "E1",
+        "technique": "stateless deviation-bounded exploration (choice-point DFS with prefix replay) of hook completion histories and environment events over the real kill plugin / engine prekill-hook path; monitor over the interleaved hook and effect log",
+        "level_text": "For each hook-list/pattern/timeout/spacing configuration every sequence of hook poll answers and per-tick victim events with at most k deviations from the default (hook finishes at once, nothing happens) is executed on the real code over 5 ticks; the monitor decides one-hook-per-victim, priority order, window, finished-or-timed-out-before-kill, destroy-before-signal, single outstanding invocation and identity change. Coverage is all executions within the deviation bound, reported as transitions; states are distinct observable histories.",
+        "level_note": "Trusted: scripted hook (records fire/poll/destroy interleaved with the effect log), reference three-case pattern relation, virtual clock. Behaviour exactly at the deadline is left open.",
+    },
 }
